@@ -205,6 +205,9 @@ pub fn enum_units(prop: Prop, thorough: bool) -> Vec<(usize, usize, usize)> {
             }
         }
     }
+    for n in prop.large_caps(thorough) {
+        units.extend(crate::gen_enum::large_units(n));
+    }
     units
 }
 
